@@ -18,6 +18,7 @@ package main
 
 import (
 	"fmt"
+	"regexp"
 	"strings"
 
 	"verifharness/lib"
@@ -207,7 +208,8 @@ func resolveTypeParams() []string {
 				}
 			}
 			rec(nil)
-			// named: one or two entries over the parameter names and an unknown name
+			// named: one or two entries over the parameter names and an unknown name; inside another type, because
+			// `B => A[{..}]` as a member of a type set declares an Object type with the parent A (NamedType, types.go:931)
 			names := append(append([]string{}, tpNames[:n]...), "zz")
 			entry := func(ni, k int) (string, string) {
 				idx := "None"
@@ -222,7 +224,7 @@ func resolveTypeParams() []string {
 			for n1 := range names {
 				for k1 := 0; k1 < 3; k1++ {
 					e1, t1 := entry(n1, k1)
-					t := typeSetText(append(append([]string{}, decls...), "B => "+ref+"[{"+e1+"}]")...)
+					t := typeSetText(append(append([]string{}, decls...), "B => Array["+ref+"[{"+e1+"}]]")...)
 					tsIndex[t] = tsCase{"params", fmt.Sprintf("mkXCase %d%%nat (XNamed %s)", n, lib.GList([]string{t1}, "option nat * parg"))}
 					ts = append(ts, t)
 					for n2 := range names {
@@ -231,7 +233,7 @@ func resolveTypeParams() []string {
 						}
 						for k2 := 0; k2 < 3; k2++ {
 							e2, t2 := entry(n2, k2)
-							t := typeSetText(append(append([]string{}, decls...), "B => "+ref+"[{"+e1+", "+e2+"}]")...)
+							t := typeSetText(append(append([]string{}, decls...), "B => Array["+ref+"[{"+e1+", "+e2+"}]]")...)
 							tsIndex[t] = tsCase{"params", fmt.Sprintf("mkXCase %d%%nat (XNamed %s)", n, lib.GList([]string{t1, t2}, "option nat * parg"))}
 							ts = append(ts, t)
 						}
@@ -248,7 +250,7 @@ func resolveTypeParams() []string {
 // another type), in members, as type parameters and as arguments of parameterized Object types - and Object types
 // whose members share a name across the sections.
 var tsMemberPool = []string{
-	"A", "B", "C", "Integer", "Array[A]", "Array[B]", "Optional[A]", "Variant[A, Integer]", "Variant[B, C]", "Struct[{a => A}]", "Struct[{a => Optional[B]}]",
+	"A", "B", "C", "Integer", "Array[A]", "Array[B]", "Optional[A]", "Variant[A, Integer]", "Struct[{a => A}]", "Struct[{a => Optional[B]}]",
 	"Hash[String, A]", "Tuple[A, B]", "Type[A]", "Callable[[A], B]", "Enum[A]", "Integer[A]", "Like[A, a]", "Init[A]", "Init[B, 1]", "Iterable[A]", "NotUndef[A]", "Sensitive[B]",
 	"Object[{}]", "Object[{parent => A}]", "Object[{parent => B}]", "Object[{parent => C}]", "Object[{parent => Array[A]}]", "Object[{parent => Optional[A]}]",
 	"Array[Object[{parent => A}]]", "Optional[Object[{parent => B}]]", "Struct[{a => Object[{parent => A}]}]", "Object[{parent => Object[{parent => A}]}]",
@@ -271,6 +273,17 @@ var tsMemberPool = []string{
 	"Object[{functions => {f => Callable[[A], B]}}]", "Object[{constants => {c => A}}]", "Object[{constants => {c => B}}]",
 	"TypeSet[{pcore_version => '1.0.0', version => '1.0.0', types => {A => A}}]", "TypeSet[{pcore_version => '1.0.0', version => '1.0.0', types => {X => B}}]",
 }
+
+// Open finding variant-alias-cycle: a member that is a Variant of itself and another alias of the set
+// (`B => Variant[B, C], C => Integer`) overflows the stack: NewVariantType normalizes its members with
+// GuardedIsAssignable, whose branch for an alias on the right (types/types.go:137) follows the alias without the
+// recursion guard. The pool above therefore holds no Variant over two members (every such input would cost a
+// deadline and use up the cap of pinned hangs); one representative is run last.
+var typeSetKnown = []string{typeSetText("A => Object[{parent => B}]", "B => Variant[B, C]", "C => Integer")}
+
+var reVariantMember = regexp.MustCompile(`Variant\[[^\]]*\b[A-D]\b`)
+
+func variantOverMembers(s string) bool { return strings.HasPrefix(s, tsHead) && reVariantMember.MatchString(s) }
 
 func resolveTypeSetPairs() []string {
 	var ts []string
